@@ -449,6 +449,9 @@ class Mx:
     def transpose(s): return Mx(s.c, s.r, [[s.g(i, j) for i in range(s.r)] for j in range(s.c)])
     def selfadjointViewLower(s): return Mx(s.r, s.c, [[s.g(max(i, j), min(i, j)) for j in range(s.c)] for i in range(s.r)])
     def diagonal(s): return MxDiag(s)
+    def asDiagonal(s):
+        v = s.flat()
+        return Mx(len(v), len(v), [[v[i] if i == j else D(0) for j in range(len(v))] for i in range(len(v))])
     def array(s): return Mx(s.r, s.c, base=s, arr=True)
     def matrix(s): return Mx(s.r, s.c, base=s, arr=False)
     def eval(s): return s.copy()
@@ -1232,6 +1235,8 @@ class Exec:
             return int(n['value'])
         if k == 'CXXBoolLiteralExpr':
             return bool(n['value'])
+        if k == 'CharacterLiteral':
+            return chr(n['value'])
         if k == 'StringLiteral':
             return n.get('value', '""').strip('"')
         if k == 'CXXNullPtrLiteralExpr' or k == 'GNUNullExpr':
